@@ -23,6 +23,7 @@ RULE = (
     '[0,1) and at least 5 points collected; distinct = SHA-1 of (group, lattice, site, positions).'
 )
 RULE += ' Added in rounds 6-9: positions bitwise on site centres / images; trajectory cells expanded / compressed by about 1 % or reoriented.'
+RULE += ' Round 16: input positions of analyze_positions in arbitrary periodic images.'
 RULE += ' Round 15: half of the structures handed to from_structure have a rigidly rotated lattice matrix; the analyzer keeps the cell of the structure.'
 RULE += ' Round 14: 10 (200) ideal-lattice inputs (nodes of a 1 A grid, site on a node, radius 1 / 2 / 3 A) whose distances are exact; pairs exactly at the radius are not below it.'
 ASSUMPTIONS = [
@@ -278,6 +279,11 @@ def run_unit(unit, rng, ctx):
         what = f'{sg.symbol} (#{n}) {"spglib ops" if use_spglib else "SpaceGroup"} ops={len(ops)} radius={radius:.3f}'
         wit = {'spacegroup': sg.symbol, 'lattice': m, 'radius': radius, 'sites': [s.frac_coords for s in an_sites]}
         handed = positions.copy()
+        if unit['r'] % 2 == 0 and rng.integers(2):
+            # input positions as they come out of an unwrapped trajectory: every position in its own periodic image
+            handed = handed + rng.integers(-2, 3, size=handed.shape)
+            positions = handed.copy()
+            ctx.count('position_sets_given_in_arbitrary_periodic_images')
         shapes = analyzer.analyze_positions(handed, radius=radius)
         ctx.check(np.array_equal(handed, positions), f'{what}: analyze_positions modified the position array it was given', wit)
         ctx.check(len(shapes) == len(an_sites), f'{what}: {len(shapes)} shapes for {len(an_sites)} sites', wit)
